@@ -1053,4 +1053,3 @@ func genScen(w *world, sc *scriptT, nsteps int) {
 		}
 	}
 }
-
